@@ -116,23 +116,27 @@ structure Cfg where
   /-- the configured regexp (parameter: Go's regexp package) -/
   re : Bytes → Bool
 
+/-- the decision after `FromBytes` -/
+def decideMsg (cfg : Cfg) : Res Msg → Verdict
+  | .panic _ => .panic
+  | .err _ => .no
+  | .ok msg =>
+    if msg.romon ∧ !cfg.romon then .no
+    else if !msg.romon ∧ !cfg.standard then .no
+    else if !cfg.username.isEmpty ∧ cfg.username ≠ msg.username then .no
+    else if cfg.username.isEmpty ∧ cfg.hasRe ∧ !cfg.re msg.username then .no
+    else .yes
+
+/-- bytes wanted after the 2-byte header: the first chunk, or everything a two-chunk message can hold -/
+def wanted (h0 : Nat) : Nat := if h0 = l4winbox_MessageChunkBytesMax then l4winbox_MessageAuthBytesMax - 2 else h0
+
 /-- `MatchWinbox.Match` -/
 def matcher (cfg : Cfg) : Prog :=
   .readFull 2 fun hdr =>
     let h0 := (hdr.headD 0).toNat
     let h1 := (hdr.getD 1 0).toNat
     if h0 < l4winbox_MessageAuthBytesMin - 2 ∨ h1 ≠ l4winbox_MessageChunkTypeAuth then .ret .no else
-    let l := if h0 = l4winbox_MessageChunkBytesMax then l4winbox_MessageAuthBytesMax - 2 else h0
-    .readAtLeast (l + 1) h0 fun got =>
-      if got.length > l then .ret .no else
-      match fromBytes (hdr ++ got) with
-      | .panic s => .ret .panic
-      | .err _ => .ret .no
-      | .ok msg =>
-        if msg.romon ∧ !cfg.romon then .ret .no
-        else if !msg.romon ∧ !cfg.standard then .ret .no
-        else if !cfg.username.isEmpty ∧ cfg.username ≠ msg.username then .ret .no
-        else if cfg.username.isEmpty ∧ cfg.hasRe ∧ !cfg.re msg.username then .ret .no
-        else .ret .yes
+    .readAtLeast (wanted h0 + 1) h0 fun got =>
+      .ret (if got.length > wanted h0 then .no else decideMsg cfg (fromBytes (hdr ++ got)))
 
 end L4.Winbox
